@@ -59,7 +59,7 @@ template <class T> static void Run(vf::BS & bs, Ctx & cx)
    const bool wantTrace = vf::WantSample();
    while((bs.done() == false)&&(steps++ < 200))
    {
-      const uint8_t op = bs.u8()%46; const int v = bs.u8()%16; const uint32 idx = bs.u8()%(uint32)(d.size()+2);
+      const uint8_t opb = bs.u8(); const uint8_t op = (opb >= 230) ? (uint8_t)(46+(opb-230)/3) : (uint8_t)(opb%46); const int v = bs.u8()%16;   /* (230..255 used to fold onto 0..25) */ const uint32 idx = bs.u8()%(uint32)(d.size()+2);
       const int tag = nextTag++;
       const char * name = "?";
       const bool wasWrapped = (q.IsNormalized() == false);
@@ -121,6 +121,46 @@ template <class T> static void Run(vf::BS & bs, Ctx & cx)
          case 42: {name="StartsWith/EndsWith(q2)"; const bool sw = (d2.size() <= d.size())&&(std::equal(d2.begin(), d2.end(), d.begin())); const bool ew = (d2.size() <= d.size())&&(std::equal(d2.begin(), d2.end(), d.end()-d2.size())); if (q.StartsWith(q2) != sw) vf::Fail("StartsWith(queue)"); if (q.EndsWith(q2) != ew) vf::Fail("EndsWith(queue)");} break;
          case 43: {name="move-assign q2=move(q)"; q2 = std::move(q); d2 = d; d.clear(); /* the moved-from queue is only required to be valid: re-sync the model with what it holds */ for (uint32 i=0; i<q.GetNumItems(); i++) d.push_back(q[i]);} break;
          case 44: {name="AddTailIfNotAlreadyPresent"; const T t = Mk<T>(v,tag); bool has = false; for (size_t i=0; i<d.size(); i++) if (d[i] == t) has = true; if (q.AddTailIfNotAlreadyPresent(t).IsError()) vf::Fail("AddTailIfNotAlreadyPresent failed"); if (!has) d.push_back(t);} break;
+         case 46: {name="AddTailAndGet"; if (bs.u8()&1) {T * p = q.AddTailAndGet(Mk<T>(v,tag)); if (p == NULL) vf::Fail("AddTailAndGet failed"); if (!Same(*p, Mk<T>(v,tag))) vf::Fail("AddTailAndGet(item) returned a pointer to something else"); if (p != &q.Tail()) vf::Fail("AddTailAndGet(item) does not point at the tail");} else {T * p = q.AddTailAndGet(); if (p == NULL) vf::Fail("AddTailAndGet() failed"); if (p != &q.Tail()) vf::Fail("AddTailAndGet() does not point at the tail"); *p = Mk<T>(v,tag); /* (documented: a trivially-typed item starts out uninitialised, so it is assigned before anyone looks) */} d.push_back(Mk<T>(v,tag));} break;
+         case 47: {name="AddHeadAndGet"; if (bs.u8()&1) {T * p = q.AddHeadAndGet(Mk<T>(v,tag)); if (p == NULL) vf::Fail("AddHeadAndGet failed"); if (!Same(*p, Mk<T>(v,tag))) vf::Fail("AddHeadAndGet(item) returned a pointer to something else"); if (p != &q.Head()) vf::Fail("AddHeadAndGet(item) does not point at the head");} else {T * p = q.AddHeadAndGet(); if (p == NULL) vf::Fail("AddHeadAndGet() failed"); if (p != &q.Head()) vf::Fail("AddHeadAndGet() does not point at the head"); *p = Mk<T>(v,tag);} d.push_front(Mk<T>(v,tag));} break;
+         case 48: {name="AddHeadIfNotAlreadyPresent"; const T t = Mk<T>(v,tag); bool has = false; for (size_t i=0; i<d.size(); i++) if (d[i] == t) has = true; if (q.AddHeadIfNotAlreadyPresent(t).IsError()) vf::Fail("AddHeadIfNotAlreadyPresent failed"); if (has == false) d.push_front(t);} break;
+         case 49: {name="CopyFrom(q2)"; if (q.CopyFrom(q2).IsError()) vf::Fail("CopyFrom failed"); d = d2;} break;
+         case 50:
+         {
+            // keeps a sorted Queue sorted: documented to assume sorted order, so sort first.  Where the item lands among equal ones is not documented: judged by validity, then the model follows.
+            name="Sort+InsertItemAtSortedPosition"; q.Sort(); std::stable_sort(d.begin(), d.end());
+            const T t = Mk<T>(v,tag); const int32 at = q.InsertItemAtSortedPosition(t);
+            if ((at < 0)||((uint32)at >= q.GetNumItems())) vf::Fail("InsertItemAtSortedPosition returned %d with %u items", at, q.GetNumItems());
+            if (q.GetNumItems() != d.size()+1) vf::Fail("InsertItemAtSortedPosition: %u items, expected %zu", q.GetNumItems(), d.size()+1);
+            if (!Same(q[(uint32)at], t)) vf::Fail("InsertItemAtSortedPosition returned index %d, which does not hold the inserted item", at);
+            for (uint32 i=1; i<q.GetNumItems(); i++) if (q[i] < q[i-1]) vf::Fail("after InsertItemAtSortedPosition the Queue is not sorted at %u (model %s)", i, Render(d).c_str());
+            {std::deque<T> rest; for (uint32 i=0; i<q.GetNumItems(); i++) if ((int32)i != at) rest.push_back(q[i]); if (rest.size() != d.size()) vf::Fail("size"); for (size_t i=0; i<d.size(); i++) if (!Same(rest[i], d[i])) vf::Fail("InsertItemAtSortedPosition disturbed the other items (at %zu, model %s)", i, Render(d).c_str());}
+            d.insert(d.begin()+at, t);
+         }
+         break;
+         case 51:
+         {
+            name="Sort+RemoveSortedDuplicateItems"; q.Sort(); std::stable_sort(d.begin(), d.end());
+            const size_t before = d.size(); const uint32 r = q.RemoveSortedDuplicateItems();
+            d.erase(std::unique(d.begin(), d.end()), d.end());      // keeps the first of each run, as "at most a single instance of any given value is left" allows
+            if (r != before-d.size()) vf::Fail("RemoveSortedDuplicateItems returned %u, model %zu", r, before-d.size());
+            if (q.GetNumItems() != d.size()) vf::Fail("RemoveSortedDuplicateItems left %u items, model %zu", q.GetNumItems(), d.size());
+            for (uint32 i=0; i<q.GetNumItems(); i++) if (!(q[i] == d[i])) vf::Fail("RemoveSortedDuplicateItems: item %u has value %d, model %d", i, Val(q[i]), Val(d[i]));
+            d.clear(); for (uint32 i=0; i<q.GetNumItems(); i++) d.push_back(q[i]);     // which instance of a run survives is not documented
+         }
+         break;
+         case 52: {name="ReplaceAllItems"; const T t = Mk<T>(v,tag); q.ReplaceAllItems(t); for (size_t i=0; i<d.size(); i++) d[i] = t;} break;
+         case 53:
+         {
+            name="GetLastValidIndex/GetNumUnusedItemSlots/EnsureCanAdd/GetIteratorAt";
+            if (q.GetLastValidIndex() != ((int32)d.size())-1) vf::Fail("GetLastValidIndex %d with %zu items", q.GetLastValidIndex(), d.size());
+            if (q.GetNumUnusedItemSlots() != q.GetNumAllocatedItemSlots()-q.GetNumItems()) vf::Fail("GetNumUnusedItemSlots");
+            const uint32 extra = bs.u8()%6; a1 = extra; if (q.EnsureCanAdd(extra).IsError()) vf::Fail("EnsureCanAdd failed"); if (q.GetNumUnusedItemSlots() < extra) vf::Fail("EnsureCanAdd(%u) left %u unused slots", extra, q.GetNumUnusedItemSlots());
+            {uint32 i = idx; for (ConstQueueIterator<T> it = static_cast<const Queue<T> &>(q).GetIteratorAt(idx); it.HasData(); it++, i++) {if (i >= d.size()) vf::Fail("GetIteratorAt(%u) runs past the end", idx); if (!Same(it.GetValue(), d[i])) vf::Fail("GetIteratorAt(%u): item %u differs from the model", idx, i);} if ((idx < d.size())&&(i != d.size())) vf::Fail("GetIteratorAt(%u) stopped at %u of %zu", idx, i, d.size());}
+            {int32 i = (int32)idx; for (ConstQueueIterator<T> it = static_cast<const Queue<T> &>(q).GetBackwardIteratorAt(idx); it.HasData(); it++, i--) {if ((i < 0)||((size_t)i >= d.size())) vf::Fail("GetBackwardIteratorAt(%u) runs outside the Queue", idx); if (!Same(it.GetValue(), d[(size_t)i])) vf::Fail("GetBackwardIteratorAt(%u): item %d differs from the model", idx, i);} if ((idx < d.size())&&(i != -1)) vf::Fail("GetBackwardIteratorAt(%u) stopped at %d", idx, i);}
+         }
+         break;
+         case 54: {name="q2.CopyFrom(q) then compare"; if (q2.CopyFrom(q).IsError()) vf::Fail("CopyFrom failed"); d2 = d; if (!(q == q2)) vf::Fail("a Queue and its CopyFrom() copy compare unequal");} break;
          case 45: {name="EnsureSize(setNumItems) bigger"; const uint32 n = (uint32)d.size()+(bs.u8()%5); a1 = n; if (q.EnsureSize(n, true).IsError()) vf::Fail("EnsureSize failed"); while(d.size() < n) d.push_back(T());} break;
       }
       cx.h = vf::HashMix(cx.h, ((uint64_t)op<<48)|((uint64_t)(v&15)<<40)|((uint64_t)(idx&0xFF)<<32)|((uint64_t)(a1&0xFFFF)<<16)|(a2&0xFFFF));
